@@ -106,6 +106,12 @@ func (w *World) newFlow(pkgPath, rel string) *Flow {
 	if fd == nil || fd.Body == nil {
 		return nil
 	}
+	// calls of forwarding helpers are read as the calls they stand for (forward.go)
+	if nl := w.expandForwarding(p, fd.Body.List); len(nl) > 0 && &nl[0] != &fd.Body.List[0] {
+		cp := *fd
+		cp.Body = &ast.BlockStmt{Lbrace: fd.Body.Lbrace, List: nl, Rbrace: fd.Body.Rbrace}
+		fd = &cp
+	}
 	fl := &Flow{w: w, pkg: p, info: p.TypesInfo, fd: fd, name: rel}
 	fl.c = &astCanon{info: p.TypesInfo}
 	fl.g = cfg.New(fd.Body, func(call *ast.CallExpr) bool {
